@@ -5,21 +5,23 @@ Code under contract: `felupe/region/_boundary.py` (the six `boundary_cells_*` in
 `GaussLegendreBoundary` quadrature.
 
 E1 (generic cell): the real template is executed on ONE cell whose node coordinates are free reals
-(incl. mid-side / face / centre nodes, hence curved).  `requires`: det(dX/dr) > 0 at the points of the
+(incl. mid-side / face / centre nodes, hence curved).  `requires`: det(dX/dxi) > 0 at the points of the
 closed reference cell where the code evaluates it -- the Gauss points of the 2*dim reference faces (the
 boundary region) and the interior Gauss points (the volume template of the flux clause).  The reference
 faces, their node sets and their outward normals are defined spec-side from the element's own points
 (`element.points`, C04 contract): face (k, s) = { xi : xi_k = s }, N = s e_k -- never from the tables
 under test.
 
-Pairs (E1 + ground): two cells glued along a face in every admissible way (every face of A, every proper
+Pairs (ground + E1): two cells glued along a face in every admissible way (every face of A, every proper
 symmetry of the reference cell for B), nodes identified by position: `only_surface=True` keeps exactly
-the non-shared faces, whose area vectors close and whose flux is dim * volume.
+the non-shared faces, whose area vectors close and whose flux is dim * volume; with
+`only_surface=False` the two copies of the interior face list the same nodes and carry opposite area
+vectors at the same points.
 
-Mask (symbolic membership, path enumeration): the point mask is an array of free Booleans; the real
-constructor is executed once per feasible outcome of its one data-dependent selection, the path
-condition and the postcondition `selected(f) <=> all points of the geometric face f satisfy the mask`
-are decided by z3 for all masks at once.
+Mask (symbolic membership + enumeration of the one data-dependent selection): the point mask is an array
+of free Booleans; the selection conditions the real constructor computes (through np.arange(n)[mask],
+np.isin, np.all) are compared by z3 with `all points of the geometric face satisfy the mask` for all
+masks at once; the rest of the constructor is executed for every outcome of the selection.
 """
 import inspect
 import itertools
@@ -29,23 +31,24 @@ import numpy as np
 
 import felupe as fem
 from felupe.region import _boundary as B_
-from vk import gencell, oracle, ring, symnp
+from vk import oracle, ring, symnp
 from vk.core import Skip, contract
 from vk.gencell import generic_points, ref_points, require_valid_cell
 from vk.ring import LP, co
-from vk.symnp import det_ref, ref_einsum
+from vk.symnp import det_ref
 
 from contracts.c06_regions import exact_quadrature
 
 TRUSTED = [
-    "C13: Region.reload (dXdr = sum_a X_a (x) grad h_a at the region's quadrature points, drdX, dhdX) and Field.interpolate are under the C06 contract; element.points / function / gradient under the C04 contract; GaussLegendre tables under C05",
+    "C13: Region.reload (dXdr = sum_a X_a (x) grad h_a at the region's quadrature points, drdX, dhdX, dV sign test) and Field.interpolate are under the C06 contract; element.points / function / gradient under the C04 contract; GaussLegendre tables under C05",
     "C13: 'outward' is the local statement n . (dX/dxi N) > 0 with N the outward normal of the closed reference cell at the face point (the cell map preserves orientation on valid cells, so -dX/dxi N points into the body); on affine cells additionally (x_q - centroid) . n > 0",
-    "C13: closure and flux of a closed surface made of several cells follow from the per-face integrals; the pair contracts instantiate this for two cells (every admissible gluing), larger meshes follow by induction on the number of cells (paper lemma: a shared face contributes opposite area vectors and equal positions)",
-    "C13 mask: numpy contracts assumed for the symbolic-membership run: np.arange(n)[mask] is the increasing list of i with mask[i]; np.isin(a, s)[..] is membership of a[..] in s; np.all(b, axis=1) is the row-wise conjunction (stand-ins differentially tested against numpy on concrete masks in every run)",
+    "C13: closure and flux of a closed surface made of several cells follow from the per-face integrals; the pair contracts instantiate this for two cells (every admissible gluing), larger meshes follow by induction on the number of cells (paper lemma: a shared face contributes opposite area vectors at equal positions, proved for every gluing)",
+    "C13: derived sign facts (proved, then assumed): a . b == d > 0 entails a . a > 0 (a vector with a non-zero inner product is non-zero)",
+    "C13 mask: numpy contracts assumed for the symbolic-membership run: np.arange(n)[mask] is the increasing list of the i with mask[i]; np.isin(a, s) is element-wise membership of a in s; np.all(b, axis=1) is the row-wise conjunction; a[boolean vector] keeps the rows flagged True in order (the first three are replaced by stand-ins, differentially tested against numpy on concrete masks in every run)",
 ]
 
 E = fem.element
-# cell type: (boundary template, volume template, element, float tables -> tolerance)
+# cell type: (boundary template, volume template, element)
 CELLS = {
     "quad": (fem.RegionQuadBoundary, fem.RegionQuad, E.Quad),
     "quad8": (fem.RegionQuadraticQuadBoundary, fem.RegionQuadraticQuad, E.QuadraticQuad),
@@ -55,13 +58,15 @@ CELLS = {
     "hexahedron27": (fem.RegionTriQuadraticHexahedronBoundary, fem.RegionTriQuadraticHexahedron, E.TriQuadraticHexahedron),
 }
 TABLES = {
-    "quad": B_.boundary_cells_quad,
-    "quad8": B_.boundary_cells_quad8,
-    "quad9": B_.boundary_cells_quad9,
-    "hexahedron": B_.boundary_cells_hexahedron,
-    "hexahedron20": B_.boundary_cells_hexahedron20,
-    "hexahedron27": B_.boundary_cells_hexahedron27,
+    "quad": [B_.boundary_cells_quad],
+    "quad8": [B_.boundary_cells_quad, B_.boundary_cells_quad8],
+    "quad9": [B_.boundary_cells_quad, B_.boundary_cells_quad8, B_.boundary_cells_quad9],
+    "hexahedron": [B_.boundary_cells_hexahedron],
+    "hexahedron20": [B_.boundary_cells_hexahedron, B_.boundary_cells_hexahedron20],
+    "hexahedron27": [B_.boundary_cells_hexahedron, B_.boundary_cells_hexahedron20, B_.boundary_cells_hexahedron27],
 }
+HI3 = ("hexahedron20", "hexahedron27")
+QUADRATIC = ("quad8", "quad9", "hexahedron20", "hexahedron27")
 TOL = 1e-11  # tolerance form (float Gauss tables read as the rationals they are)
 
 
@@ -69,15 +74,20 @@ def _default_quadrature(cls):
     return inspect.signature(cls.__init__).parameters["quadrature"].default
 
 
-# ---- spec side: reference faces ------------------------------------------------------------------
+def _under_contract(vk, ct):
+    vk.real(B_.RegionBoundary.__init__)
+    vk.real(B_.RegionBoundary._init_faces)
+    for t in TABLES[ct]:
+        vk.real(t)
+    vk.real(CELLS[ct][0].__init__)
+    vk.real(fem.GaussLegendreBoundary.__init__)
+
+
+# ---- spec side: reference cell, faces, symmetries -------------------------------------------------
 def ref_faces(P):
-    """faces of the reference cube [-1,1]^dim: list of (k, s, frozenset of the element's nodes on xi_k == s)"""
+    """faces of the reference cube [-1,1]^dim: {(k, s): frozenset of the element's nodes with xi_k == s}"""
     dim = P.shape[1]
-    out = []
-    for k in range(dim):
-        for s in (-1, 1):
-            out.append((k, s, frozenset(int(a) for a in np.nonzero(P[:, k] == s)[0])))
-    return out
+    return {(k, s): frozenset(int(a) for a in np.nonzero(P[:, k] == s)[0]) for k in range(dim) for s in (-1, 1)}
 
 
 def face_gauss_points(bcls, dim):
@@ -89,8 +99,21 @@ def face_gauss_points(bcls, dim):
     for k in range(dim):
         for s in (-1.0, 1.0):
             for p in qp:
-                pts.append(tuple(np.insert(p[:-1], k, s)))
-    return pts
+                pts.append(tuple(float(x) for x in np.insert(p[:-1], k, s)))
+    return list(dict.fromkeys(pts))
+
+
+def proper_symmetries(dim):
+    """the proper symmetries of the reference cube: signed permutation matrices with determinant +1"""
+    out = []
+    for perm in itertools.permutations(range(dim)):
+        for signs in itertools.product((1, -1), repeat=dim):
+            Q = np.zeros((dim, dim), dtype=int)
+            for i in range(dim):
+                Q[i, perm[i]] = signs[i]
+            if round(np.linalg.det(Q)) == 1:
+                out.append(Q)
+    return out
 
 
 def node_classes(P):
@@ -99,33 +122,18 @@ def node_classes(P):
 
 
 def representative_nodes(P):
-    """a small set of nodes containing, for every reference face, one node of every class present on it"""
+    """a small set of nodes containing, for every reference face, one node of every class present on it,
+    plus the interior node"""
     cls = node_classes(P)
-    faces = ref_faces(P)
-    need = {(fi, c) for fi, (k, s, nodes) in enumerate(faces) for c in {cls[a] for a in nodes}}
+    faces = list(ref_faces(P).values())
+    need = {(fi, c) for fi, nodes in enumerate(faces) for c in {cls[a] for a in nodes}}
     chosen = []
     while need:
-        best = max(range(len(P)), key=lambda a: (sum(1 for (fi, c) in need if a in faces[fi][2] and cls[a] == c), -a))
+        best = max(range(len(P)), key=lambda a: (sum(1 for (fi, c) in need if a in faces[fi] and cls[a] == c), -a))
         chosen.append(best)
-        need = {(fi, c) for (fi, c) in need if not (best in faces[fi][2] and cls[best] == c)}
+        need = {(fi, c) for (fi, c) in need if not (best in faces[fi] and cls[best] == c)}
     interior = [a for a in range(len(P)) if cls[a] == P.shape[1]]
     return sorted(set(chosen + interior))
-
-
-def cell_points(vk, el, mode, name="X"):
-    """node coordinates of the generic cell.
-    generic: every coordinate a free real;  affine: X_a = B xi_a + t (B, t free);
-    classes: affine image plus a free displacement vector for one representative node of every class
-             (corner, edge, face, centre) on every face"""
-    P = ref_points(el)
-    if mode == "generic":
-        return generic_points(vk, el, name=name, spread=0.06)
-    X = generic_points(vk, el, name=name, affine=True, spread=0.1)
-    if mode == "classes":
-        for a in representative_nodes(P):
-            d = vk.reals(f"{name}d{a}", (P.shape[1],), near=0.0, spread=0.04)
-            X[a] = X[a] + d
-    return X
 
 
 def _lpvec(xi):
@@ -134,10 +142,10 @@ def _lpvec(xi):
 
 
 def jac(el, X, xi):
-    """spec: dX/dxi at a reference point (exact) = sum_a X_a (x) grad h_a(xi)"""
+    """spec: dX/dxi at an exact reference point = sum_a X_a (x) grad h_a(xi)"""
     g = np.asarray(el.gradient(_lpvec(xi)))
     n, dim = X.shape
-    J = np.empty((dim, dim), dtype=X.dtype)
+    J = np.empty((dim, dim), dtype=object)
     for i in range(dim):
         for j in range(dim):
             J[i, j] = sum(X[a, i] * g[a, j] for a in range(n))
@@ -149,49 +157,24 @@ def cof_col(J, k):
     dim = J.shape[0]
     if dim == 2:
         o = 1 - k
-        return np.array([J[1, o], -J[0, o]], dtype=J.dtype) * (1 if k == 0 else -1)
+        sg = 1 if k == 0 else -1
+        return np.array([J[1, o] * sg, -J[0, o] * sg], dtype=object)
     a, b = [(1, 2), (2, 0), (0, 1)][k]
     u, v = J[:, a], J[:, b]
-    return np.array([u[1] * v[2] - u[2] * v[1], u[2] * v[0] - u[0] * v[2], u[0] * v[1] - u[1] * v[0]], dtype=J.dtype)
+    return np.array([u[1] * v[2] - u[2] * v[1], u[2] * v[0] - u[0] * v[2], u[0] * v[1] - u[1] * v[0]], dtype=object)
 
 
 def _fr(x):
+    if isinstance(x, (float, np.floating, int, np.integer)):
+        return Fraction(float(x))
     c = co(x).asconst()
     if c is None:
         raise ValueError("not a constant")
     return Fraction(c)
 
 
-class Cell:
-    """one generic cell with its boundary region (real code) and the spec-side face data"""
-
-
-def build_cell(vk, ct, mode, volume=False, **kw):
-    bcls, vcls, el_cls = CELLS[ct]
-    el = el_cls()
-    P = ref_points(el)
-    n, dim = P.shape
-    X = cell_points(vk, el, mode)
-    mesh = fem.Mesh(X, np.arange(n).reshape(1, n), ct)
-    c = Cell()
-    c.ct, c.el, c.P, c.X, c.mesh, c.dim, c.n = ct, el, P, X, mesh, dim, n
-    c.bcls, c.vcls = bcls, vcls
-    # precondition schema "valid cell": det > 0 at the face Gauss points (and the interior Gauss points)
-    fpts = face_gauss_points(bcls, dim)
-    c.face_dets = dict(zip(fpts, require_valid_cell(vk, el, X, fpts)))
-    if volume:
-        with symnp.native():
-            vq = np.asarray(_default_quadrature(vcls).points, dtype=float)
-        require_valid_cell(vk, el, X, vq)
-    if vk.sym:
-        oracle.COLLECT = []
-    try:
-        c.region = bcls(mesh, quadrature=exact_quadrature(vk, bcls), **kw)
-    finally:
-        c.collected = oracle.COLLECT if vk.sym else []
-        oracle.COLLECT = None
-    derive_norm_facts(vk, c, c.region)
-    return c
+def _dot(a, b):
+    return sum(co(x) * co(y) for x, y in zip(a, b))
 
 
 def _assumed_sign(p):
@@ -205,100 +188,194 @@ def _assumed_sign(p):
     return None
 
 
-def rotated_jacobians(c, r, obj=object):
-    """J_b(q) = sum_a X[cells[b, a]] (x) dhdr[a, :, q]: what Region.reload computes for the rotated cells (C06
-    contract), from the region's own cell table and shape-function gradients"""
+def _decide(p, op, why):
+    try:
+        return oracle.decide(p, op, why=why)
+    except oracle.Undecided:
+        return None
+
+
+def _all3(results):
+    """three-valued conjunction: False if any False, None if any undecided, else True"""
+    if any(x is False for x in results):
+        return False
+    if any(x is None for x in results):
+        return None
+    return True
+
+
+# ---- generic meshes ------------------------------------------------------------------------------
+class Cell:
+    """a mesh of generic cells with its boundary region (real code) and the spec-side face data"""
+
+
+def _coordinates(vk, pos, mode, reps, name="X"):
+    """node coordinates: generic = every coordinate a free real near its reference position;
+    affine = B pos + t (B, t free); classes = affine image plus a free displacement vector for the
+    representative nodes `reps`"""
+    pos = np.asarray(pos, dtype=float)
+    ng, dim = pos.shape
+    if mode == "generic":
+        return vk.reals(name, (ng, dim), near=pos, spread=0.06)
+    Bm = vk.reals(name + "B", (dim, dim), near=np.eye(dim), spread=0.1)
+    t = vk.reals(name + "t", (dim,), near=0.0, spread=0.1)
+    pl = ring.lift(pos) if vk.sym else pos
+    X = np.empty((ng, dim), dtype=object if vk.sym else float)
+    for a in range(ng):
+        for i in range(dim):
+            X[a, i] = sum(Bm[i, j] * pl[a, j] for j in range(dim)) + t[i]
+    if mode == "classes":
+        for a in reps:
+            d = vk.reals(f"{name}d{a}", (dim,), near=0.0, spread=0.04)
+            X[a] = X[a] + d
+    return X
+
+
+def build(vk, ct, mode, cells=None, pos=None, reps=None, volume=False, witness=True, **kw):
+    """generic mesh (default: one cell), valid-cell precondition for every cell, the real boundary template"""
+    bcls, vcls, el_cls = CELLS[ct]
+    el = el_cls()
+    P = ref_points(el)
+    n, dim = P.shape
+    if cells is None:
+        cells, pos = np.arange(n).reshape(1, n), P
+        reps = representative_nodes(P)
+    X = _coordinates(vk, pos, mode, reps or [])
+    mesh = fem.Mesh(X, cells, ct)
+    c = Cell()
+    c.ct, c.el, c.P, c.X, c.mesh, c.dim, c.n, c.cells = ct, el, P, X, mesh, dim, n, np.asarray(cells)
+    c.bcls, c.vcls = bcls, vcls
+    c.faces = ref_faces(P)
+    # precondition schema "valid cell": det > 0 at the face Gauss points (and the interior Gauss points)
+    fpts = face_gauss_points(bcls, dim)
+    c.face_dets = []
+    for cl in c.cells:
+        dets = require_valid_cell(vk, el, X[cl], fpts)
+        c.face_dets.append({tuple(Fraction(x) for x in p): d for p, d in zip(fpts, dets)})
+        if volume:
+            with symnp.native():
+                vq = np.asarray(_default_quadrature(vcls).points, dtype=float)
+            require_valid_cell(vk, el, X[cl], vq)
+    if vk.sym and witness:
+        oracle.WITNESS = {ring._vars[nm]: Fraction(cen) for nm, (cen, sp) in vk.samplers.items()}
+    c.kw = kw
+    c.region = construct(vk, c, **kw)
+    return c
+
+
+def construct(vk, c, mesh=None, **kw):
+    """the real constructor; sign tests it performs that are not literally instances of the precondition
+    schema are collected (obligation pre/instance) and do not join the assumption set"""
+    if vk.sym:
+        oracle.COLLECT = []
+        n0 = len(oracle.ASSUME)
+    try:
+        r = c.bcls(mesh or c.mesh, quadrature=exact_quadrature(vk, c.bcls), **kw)
+    finally:
+        collected = oracle.COLLECT if vk.sym else []
+        oracle.COLLECT = None
+    if vk.sym:
+        keys = {p.key() for p, _ in collected}
+        oracle.ASSUME[n0:] = [(p, o) for p, o in oracle.ASSUME[n0:] if p.key() not in keys]
+        vk.ensures_true(
+            "pre/instance" + ("" if not kw else "[" + ",".join(f"{k}={v}" for k, v in kw.items() if k != "mask") + "]"),
+            True if not collected else None,
+            f"{len(collected)} sign tests of the constructor (negative-volume check of the rotated cells) are not instances of the valid-cell schema det dX/dxi(xi) > 0, xi in the closed reference cell" if collected else "every sign test of the constructor is an instance of the valid-cell schema",
+        )
+        r._fd = identify(vk, c, r)
+        derive_norm_facts(vk, c, r)
+    return r
+
+
+def identify(vk, c, r):
+    """spec-side identification of every boundary cell b of the region with a reference face of a cell of
+    the original mesh: parent cell p (same node set), xi_q (position of the quadrature point in the
+    parent's reference cell, through the region's own shape functions and cell table), the faces (k, s)
+    with xi_q[k] == s for all q, the reference-to-reference Jacobian G_b(q), the local numbering"""
     cells = np.asarray(r.mesh.cells)
-    with symnp.native():
-        dh = np.asarray(r.dhdr)
-    dh = dh.reshape(dh.shape[0], dh.shape[1], -1)
-    nq, nb, dim = dh.shape[2], len(cells), c.dim
-    pts = np.asarray(r.mesh.points)
-    J = np.empty((dim, dim, nq, nb), dtype=obj)
-    for b in range(nb):
-        for q in range(nq):
-            for i in range(dim):
-                for j in range(dim):
-                    J[i, j, q, b] = sum(pts[cells[b, a], i] * dh[a, j, q] for a in range(cells.shape[1]))
-    return J
-
-
-def derive_norm_facts(vk, c, r, label="derived"):
-    """sign facts entailed by the valid-cell precondition, proved first and then added to the assumption
-    set (they are the radicands of the norms taken by _init_faces):
-      dA_q . (-J_b e_last) == w_q det J_b > 0   =>  dA_q != 0  =>  dA_q . dA_q > 0
-      J_b e_j . cof(J_b) e_j == det J_b > 0     =>  J_b e_j != 0  =>  |J_b e_j|^2 > 0   (in-face columns j)
-    where det J_b is literally one of the assumed determinants of the schema."""
-    if not vk.sym or not hasattr(r, "dA"):
-        return
-    dim = c.dim
-    Jb = rotated_jacobians(c, r)
-    nq, nb = Jb.shape[2], Jb.shape[3]
-    with symnp.native():
-        w = np.asarray(r.quadrature.weights)
-    lhs = np.empty((nq, nb), dtype=object)
-    rhs = np.empty((nq, nb), dtype=object)
-    pos = np.zeros((nq, nb), dtype=bool)
-    for b in range(nb):
-        for q in range(nq):
-            J = Jb[:, :, q, b]
-            d = co(det_ref(J))
-            pos[q, b] = _assumed_sign(d) == ">"
-            lhs[q, b] = -sum(co(r.dA[i, q, b]) * co(J[i, dim - 1]) for i in range(dim))
-            rhs[q, b] = d * co(w[q])
-            if pos[q, b] and ring.iszero(lhs[q, b] - rhs[q, b]):
-                oracle.assume(sum(co(r.dA[i, q, b]) * co(r.dA[i, q, b]) for i in range(dim)), ">")
-            if pos[q, b]:
-                for j in range(dim - 1):
-                    col = J[:, j]
-                    if ring.iszero(sum(co(col[i]) * co(cof_col(J, j)[i]) for i in range(dim)) - d):
-                        oracle.assume(sum(co(col[i]) * co(col[i]) for i in range(dim)), ">")
-    vk.ensures_true(f"{label}/det(J_b)-is-an-assumed-determinant", bool(pos.all()), f"{int(pos.sum())} of {pos.size} rotated-cell determinants are instances of the valid-cell schema")
-    vk.ensures_eq(f"{label}/dA.(-J_b e_last)==w det(J_b)", lhs, rhs)
-
-
-def face_data(vk, c, region=None):
-    """spec-side identification of every boundary cell b of the region with a reference face of the
-    original cell: xi_q (position of the quadrature point in the original reference cell, through the
-    region's own shape functions and cell table), (k, s) with xi_q[k] == s for all q, the
-    reference-to-reference Jacobian G_b"""
-    r = region or c.region
-    cells = np.asarray(r.mesh.cells)
-    nb = len(cells)
     with symnp.native():
         h = np.asarray(r.h)
         dhdr = np.asarray(r.dhdr)
     h = h.reshape(h.shape[0], -1)
     dhdr = dhdr.reshape(dhdr.shape[0], dhdr.shape[1], -1)
-    nq = h.shape[1]
-    Pex = np.array([[Fraction(x) for x in p] for p in c.P], dtype=object)
+    nq, dim, n = h.shape[1], c.dim, c.n
+    hF = [[_fr(h[a, q]) for q in range(nq)] for a in range(n)]
+    dF = [[[_fr(dhdr[a, j, q]) for q in range(nq)] for j in range(dim)] for a in range(n)]
+    Pex = [[Fraction(float(x)) for x in p] for p in c.P]
+    sets = [frozenset(int(x) for x in cl) for cl in c.cells]
     out = []
-    for b in range(nb):
-        xi = np.empty((nq, c.dim), dtype=object)
-        G = np.empty((nq, c.dim, c.dim), dtype=object)
-        for q in range(nq):
-            for i in range(c.dim):
-                xi[q, i] = sum(_fr(h[a, q]) * Pex[cells[b, a] % c.n, i] for a in range(c.n))
-                for j in range(c.dim):
-                    G[q, i, j] = sum(_fr(dhdr[a, j, q]) * Pex[cells[b, a] % c.n, i] for a in range(c.n))
-        ks = [(k, s) for k in range(c.dim) for s in (-1, 1) if all(xi[q, k] == s for q in range(nq))]
-        out.append(dict(xi=xi, G=G, ks=ks))
+    for b in range(len(cells)):
+        nodes = [int(x) for x in cells[b]]
+        parents = [p for p, s_ in enumerate(sets) if frozenset(nodes) == s_ and len(set(nodes)) == n]
+        if len(parents) != 1:
+            out.append(dict(parent=None, ks=[], xi=None, G=None, local=None))
+            continue
+        p = parents[0]
+        loc = {int(g): a for a, g in enumerate(c.cells[p])}
+        local = [loc[g] for g in nodes]
+        xi = [[sum(hF[a][q] * Pex[local[a]][i] for a in range(n)) for i in range(dim)] for q in range(nq)]
+        G = [[[sum(dF[a][j][q] * Pex[local[a]][i] for a in range(n)) for j in range(dim)] for i in range(dim)] for q in range(nq)]
+        ks = [(k, s) for k in range(dim) for s in (-1, 1) if all(xi[q][k] == s for q in range(nq))]
+        out.append(dict(parent=p, ks=ks, xi=xi, G=G, local=local))
     return out
 
 
-def _is_signed_perm(G, dim):
-    rows = [[G[i, j] for j in range(dim)] for i in range(dim)]
-    ok = all(x in (0, 1, -1) for r_ in rows for x in r_)
-    ok = ok and all(sum(abs(x) for x in r_) == 1 for r_ in rows) and all(sum(abs(rows[i][j]) for i in range(dim)) == 1 for j in range(dim))
-    return ok and det_ref(np.array(rows, dtype=object)) == 1
+def spec_jac(c, f, q, cache={}):
+    """(J, det J) of the parent cell at xi_q; det J is looked up in the declared schema instances"""
+    Xp = c.X[c.cells[f["parent"]]]
+    key = tuple(f["xi"][q])
+    J = jac(c.el, Xp, f["xi"][q])
+    d = c.face_dets[f["parent"]].get(key)
+    return J, (co(d) if d is not None else co(det_ref(J))), d is not None
 
 
+def derive_norm_facts(vk, c, r, label="derived"):
+    """sign facts entailed by the valid-cell precondition, proved first and then added to the assumption
+    set (they are the radicands of the norms taken by _init_faces):
+      dA_q . (J N) == w_q det J > 0  at xi_q   =>  dA_q != 0  =>  dA_q . dA_q > 0
+      J e_m . cof(J) e_m == det J > 0           =>  |J e_m|^2 > 0   (every column m)"""
+    if not hasattr(r, "dA"):
+        return
+    dim = c.dim
+    nq, nb = r.dA.shape[1], r.dA.shape[2]
+    with symnp.native():
+        w = np.asarray(r.quadrature.weights)
+    lhs = np.empty((nq, nb), dtype=object)
+    rhs = np.empty((nq, nb), dtype=object)
+    inst = np.zeros((nq, nb), dtype=bool)
+    for b, f in enumerate(r._fd):
+        for q in range(nq):
+            if len(f["ks"]) != 1:
+                lhs[q, b], rhs[q, b] = LP(), LP.const(1)
+                continue
+            k, s = f["ks"][0]
+            J, d, inst[q, b] = spec_jac(c, f, q)
+            lhs[q, b] = _dot(r.dA[:dim, q, b], J[:, k] * s)
+            rhs[q, b] = d * co(float(w[q]))
+            if inst[q, b]:
+                if ring.iszero(lhs[q, b] - rhs[q, b]):
+                    oracle.assume(_dot(r.dA[:dim, q, b], r.dA[:dim, q, b]), ">")
+                for m in range(dim):
+                    if ring.iszero(_dot(J[:, m], cof_col(J, m)) - d):
+                        oracle.assume(_dot(J[:, m], J[:, m]), ">")
+    r._nanson = (lhs, rhs)
+    vk.ensures_true(f"{label}/face-points-are-schema-instances", bool(inst.all()), f"{int(inst.sum())} of {inst.size} quadrature points of the boundary cells are Gauss points of a reference face of their cell")
+    vk.ensures_eq(f"{label}/dA.(dX/dxi N)==w det(dX/dxi)", lhs, rhs)
+
+
+def positions(vk, c, r):
+    """x_q through the real Field.interpolate on the boundary region"""
+    return fem.Field(r, dim=c.dim, values=c.X).interpolate()
+
+
+# =================================================================================================
+# one generic cell
+# =================================================================================================
 def _cell_configs():
     out = []
     for ct in CELLS:
-        hi3 = ct in ("hexahedron20", "hexahedron27")
         for clause in ("faces", "area", "unit", "closure_flux", "outward"):
-            if hi3:
+            if ct in HI3:
                 out.append(dict(cell=ct, coords="classes", clause=clause))
                 out.append(dict(cell=ct, coords="generic", clause=clause, tier="thorough"))
             else:
@@ -309,83 +386,45 @@ def _cell_configs():
 
 @contract("C13", "cell", configs=_cell_configs())
 def cell_contract(vk, cfg):
-    """one generic cell, only_surface=False: face identification, Nanson area vectors, unit normals and
-    tangents, per-cell closure, flux == dim * volume, outwardness"""
+    """one generic cell, only_surface=False: the boundary cells are the reference faces, Nanson area
+    vectors, unit normals and tangents, per-cell closure, flux == dim * volume, outwardness"""
     ct, mode, clause = cfg["cell"], cfg["coords"], cfg["clause"]
-    vk.real(B_.RegionBoundary.__init__)
-    vk.real(B_.RegionBoundary._init_faces)
-    vk.real(TABLES[ct])
-    vk.real(CELLS[ct][0].__init__)
-    vk.real(fem.GaussLegendreBoundary.__init__)
-    c = build_cell(vk, ct, mode, volume=(clause == "closure_flux"), only_surface=False)
+    _under_contract(vk, ct)
+    c = build(vk, ct, mode, volume=(clause == "closure_flux"), only_surface=False)
     r, X, el, dim, n = c.region, c.X, c.el, c.dim, c.n
     obj = object if vk.sym else float
-    tol = TOL
-    nq = r.dA.shape[1]
-    nb = r.dA.shape[2]
+    nq, nb = r.dA.shape[1], r.dA.shape[2]
     with symnp.native():
         w = np.asarray(r.quadrature.weights)
-    if vk.sym:
-        fd = face_data(vk, c)
-        faces = ref_faces(c.P)
-        vk.ensures_true("pre/instance", True if not c.collected else None, f"{len(c.collected)} sign tests of the constructor are not instances of the valid-cell schema (det dX/dxi at a point of the closed reference cell)")
-    else:
-        fd = None
+    fd = r._fd if vk.sym else None
+    one = np.ones((nq, nb)) if not vk.sym else ring.lift(np.ones((nq, nb)))
 
     if clause == "faces":
-        # the boundary cells are exactly the 2*dim reference faces, each once; cells_faces lists exactly the
-        # nodes on the face; the rotated cell is a proper re-numbering of the original cell
         cf = np.asarray(r.mesh.cells_faces)
         if vk.sym:
             vk.ensures_true("count", nb == 2 * dim and len(cf) == nb, f"{nb} boundary cells, {len(cf)} faces")
             vk.ensures_true("each-on-one-reference-face", all(len(f["ks"]) == 1 for f in fd), str([f["ks"] for f in fd]))
             vk.ensures_true("bijection", len({tuple(f["ks"]) for f in fd}) == 2 * dim, str([f["ks"] for f in fd]))
-            nodesets = {(k, s): nodes for k, s, nodes in faces}
+            with symnp.native():
+                qp = np.asarray(_default_quadrature(c.bcls).points, dtype=float)
             for b, f in enumerate(fd):
-                want = nodesets.get(f["ks"][0]) if len(f["ks"]) == 1 else None
-                vk.ensures_true(f"cells_faces/[{b}]==nodes-on-face", want is not None and len(cf[b]) == len(want) and frozenset(int(x) for x in cf[b]) == want, f"{sorted(int(x) for x in cf[b])} vs {sorted(want) if want else None}")
-                vk.ensures_true(f"rotated-cell/[{b}]/permutation", sorted(int(x) for x in r.mesh.cells[b]) == list(range(n)), str(list(r.mesh.cells[b])))
-                G0 = f["G"][0]
-                okG = all(all(f["G"][q][i, j] == G0[i, j] for i in range(dim) for j in range(dim)) for q in range(nq)) and _is_signed_perm(G0, dim)
+                want = c.faces.get(f["ks"][0]) if len(f["ks"]) == 1 else None
+                got = [int(x) for x in cf[b]]
+                vk.ensures_true(f"cells_faces/[{b}]==nodes-on-face", want is not None and len(got) == len(want) and frozenset(got) == want, f"{sorted(got)} vs {sorted(want) if want else None}")
+                # quadrature on the face: images of the region's points with their weights == tensor Gauss rule of the face
+                ok = False
                 if len(f["ks"]) == 1:
                     k, s = f["ks"][0]
-                    okG = okG and all(G0[i, dim - 1] == (-s if i == k else 0) for i in range(dim))
-                vk.ensures_true(f"rotated-cell/[{b}]/proper-rotation-last-axis-inward", okG, str(G0.tolist()))
-                # quadrature on the face: the images of the region's points with their weights are the tensor Gauss rule of the face
-                got = sorted((tuple(f["xi"][q]), Fraction(float(w[q]))) for q in range(nq))
-                if len(f["ks"]) == 1:
-                    k, s = f["ks"][0]
-                    with symnp.native():
-                        qp = np.asarray(_default_quadrature(c.bcls).points, dtype=float)
-                    want = sorted((tuple(Fraction(float(x)) for x in np.insert(p[:-1], k, s)), Fraction(float(w[q]))) for q, p in enumerate(qp))
-                    vk.ensures_true(f"face-rule/[{b}]", got == want, "images of the quadrature points on the face with their weights == Gauss rule of the face")
-            vk.canary_bool("cells_faces-empty", True)
-        # geometry of the rotated cell: J_b(q) == J(xi_q) G_b   (chain rule; linear in X)
-        lhs = np.empty((dim, dim, nq, nb), dtype=obj)
-        rhs = np.empty((dim, dim, nq, nb), dtype=obj)
-        with symnp.native():
-            dh = np.asarray(r.dhdr)
-        dh = dh.reshape(dh.shape[0], dh.shape[1], -1)
-        for b in range(nb):
-            for q in range(nq):
-                for i in range(dim):
-                    for j in range(dim):
-                        lhs[i, j, q, b] = sum(X[r.mesh.cells[b, a], i] * dh[a, j, q] for a in range(n))
-                if vk.sym:
-                    J = jac(el, X, fd[b]["xi"][q])
-                    G = fd[b]["G"][q]
-                    for i in range(dim):
-                        for j in range(dim):
-                            rhs[i, j, q, b] = sum(J[i, m] * G[m, j] for m in range(dim))
-        vk.ensures_eq("rotated-cell/J_b==J(xi_q).G_b", lhs, rhs if vk.sym else lhs)
-        if dim == 3:
-            vk.ensures_eq("region.dXdr==J_b", r.dXdr, lhs)
-        else:
-            # 2D: _init_faces negates dXdr[1, 0] in place through a view (dA_1 aliases self.dXdr); the other entries are J_b
-            vk.ensures_eq("region.dXdr[:,1]==J_b[:,1]", r.dXdr[:, 1], lhs[:, 1])
-            vk.note("2D: RegionBoundary._init_faces negates region.dXdr[1, 0] in place (dA_1 is a view of self.dXdr); dA, dV, normals, tangents, drdX, dhdX are unaffected; region.dXdr is not an observable of C13")
-        # positions of the quadrature points lie on the face of the original cell
-        xq = fem.Field(r, dim=dim, values=X).interpolate()
+                    have = sorted((tuple(f["xi"][q]), Fraction(float(w[q]))) for q in range(nq))
+                    spec = sorted((tuple(Fraction(float(x)) for x in np.insert(p[:-1], k, s)), Fraction(float(w[q]))) for q, p in enumerate(qp))
+                    ok = have == spec
+                vk.ensures_true(f"face-rule/[{b}]", ok, "images of the quadrature points on the face with their weights == Gauss rule of the face")
+            m = r.mesh_faces() if ct in ("quad", "hexahedron", "quad8", "quad9") else None
+            if m is not None:
+                vk.real(B_.RegionBoundary.mesh_faces)
+                vk.ensures_true("mesh_faces", np.array_equal(np.asarray(m.cells), cf) and m.cell_type == {"quad": "line", "hexahedron": "quad", "quad8": "line3", "quad9": "line3"}[ct] and m.points is r.mesh.points, f"{m.cell_type} {m.cells.shape}")
+            vk.canary_bool("cells_faces-of-face-0-are-nodes-of-face-1", frozenset(int(x) for x in cf[0]) != c.faces.get(fd[1]["ks"][0] if fd[1]["ks"] else None))
+        xq = positions(vk, c, r)
         xs = np.empty((dim, nq, nb), dtype=obj)
         if vk.sym:
             for b in range(nb):
@@ -405,23 +444,23 @@ def cell_contract(vk, cfg):
             for b in range(nb):
                 k, s = fd[b]["ks"][0] if len(fd[b]["ks"]) == 1 else (0, 1)
                 for q in range(nq):
-                    J = jac(el, X, fd[b]["xi"][q])
+                    J, d, _ = spec_jac(c, fd[b], q)
                     cc = cof_col(J, k)
                     for i in range(dim):
                         spec[i, q, b] = cc[i] * s * co(float(w[q]))
-        vk.ensures_eq("dA==cof(J(xi_q)).N.w_q", r.dA, spec if vk.sym else r.dA, tol=None)
+        vk.ensures_eq("dA==cof(dX/dxi(xi_q)).N.w_q", r.dA, spec if vk.sym else r.dA)
         vk.ensures_eq("dV^2==dA.dA", r.dV * r.dV, (r.dA * r.dA).sum(axis=0))
         if vk.sym:
-            vk.ensures_true("dV>0", all(oracle.decide(co(x), ">") for x in r.dV.ravel()), "norm (positive root) of a non-zero area vector", backend="oracle")
+            vk.ensures_true("dV>0", _all3([_decide(co(x), ">", "dV>0") for x in r.dV.ravel()]), "norm (positive root) of a non-zero area vector", backend="oracle")
             vk.canary("dA==0", r.dA, 0 * r.dA)
         return
 
     if clause == "unit":
         nn = (r.normals * r.normals).sum(axis=0)
-        one = nn * 0 + 1
         vk.ensures_eq("n.n==1", nn, one)
         vk.ensures_eq("n*dV==dA", r.normals * r.dV, r.dA)
-        vk.ensures_true("tangent-count", len(r.tangents) == dim - 1, str(len(r.tangents))) if vk.sym else None
+        if vk.sym:
+            vk.ensures_true("tangent-count", len(r.tangents) == dim - 1, str(len(r.tangents)))
         for i, t in enumerate(r.tangents):
             vk.ensures_eq(f"t{i}.t{i}==1", (t * t).sum(axis=0), one)
             vk.ensures_eq(f"t{i}.n==0", (t * r.normals).sum(axis=0), 0 * one)
@@ -431,55 +470,365 @@ def cell_contract(vk, cfg):
         return
 
     if clause == "closure_flux":
-        quadratic = ct not in ("quad", "hexahedron")
         tot = r.dA.sum(axis=(1, 2))
-        vk.ensures_eq("closure/sum_faces_sum_q dA==0", tot, 0 * tot, tol=tol if quadratic else None)
-        xq = fem.Field(r, dim=dim, values=X).interpolate()
+        vk.ensures_eq("closure/sum_faces_sum_q dA==0", tot, 0 * tot, tol=TOL if ct in QUADRATIC else None)
+        xq = positions(vk, c, r)
         flux = (xq * r.dA).sum()
         vol = c.vcls(c.mesh, quadrature=exact_quadrature(vk, c.vcls))
         V = vol.dV.sum()
-        vk.ensures_eq("flux/sum x_q.dA_q==dim*sum(dV)", flux, dim * V, tol=tol * 10)
+        vk.ensures_eq("flux/sum x_q.dA_q==dim*sum(dV)", flux, dim * V, tol=TOL * 10)
         if vk.sym:
-            vk.canary_bool("flux==(dim+1)*volume", ring.l1norm(co(flux) - (dim + 1) * co(V)) > tol * 10)
-            vk.canary_bool("closure-without-one-face", any(ring.l1norm(co(x)) > tol for x in r.dA[:, :, 1:].sum(axis=(1, 2))))
+            vk.canary_bool("flux==(dim+1)*volume", ring.l1norm(co(flux) - (dim + 1) * co(V)) > TOL * 10)
+            vk.canary_bool("closure-without-one-face", any(ring.l1norm(co(x)) > TOL for x in r.dA[:, :, 1:].sum(axis=(1, 2))))
         return
 
     if clause == "outward":
         if not vk.sym:
             return
-        ok, bad = True, []
+        lhs, rhs = r._nanson
+        res = []
         for b in range(nb):
-            if len(fd[b]["ks"]) != 1:
-                ok, bad = False, bad + [f"boundary cell {b} is not on one reference face"]
-                continue
-            k, s = fd[b]["ks"][0]
             for q in range(nq):
-                J = jac(el, X, fd[b]["xi"][q])
-                JN = J[:, k] * s
-                p = sum(co(r.dA[i, q, b]) * co(JN[i]) for i in range(dim))
-                try:
-                    good = oracle.decide(p, ">", why="outward")
-                except oracle.Undecided:
-                    good = None
-                if good is not True:
-                    ok = None if (good is None and ok is True) else (False if good is False else ok)
-                    bad.append(f"b={b} q={q}: dA.(J N) > 0 {'undecided' if good is None else 'refuted'}")
-        vk.ensures_true("outward/dA.(dX/dxi N)>0", ok, "; ".join(bad[:4]) or f"{nb * nq} sign facts entailed by the valid-cell precondition", backend="oracle")
+                res.append(_decide(lhs[q, b], ">", "outward") if len(fd[b]["ks"]) == 1 else False)
+        vk.ensures_true("outward/dA.(dX/dxi N)>0", _all3(res), f"{sum(1 for x in res if x is True)} of {len(res)} sign facts entailed by the valid-cell precondition", backend="oracle")
         if mode == "affine":
-            xq = fem.Field(r, dim=dim, values=X).interpolate()
+            xq = positions(vk, c, r)
             cen = X[: 2**dim].sum(axis=0) / 2**dim
-            ok2, bad2 = True, []
-            for b in range(nb):
-                for q in range(nq):
-                    p = sum((co(xq[i, q, b]) - co(cen[i])) * co(r.dA[i, q, b]) for i in range(dim))
-                    try:
-                        good = oracle.decide(p, ">", why="outward-centroid")
-                    except oracle.Undecided:
-                        good = None
-                    if good is not True:
-                        ok2 = None if (good is None and ok2 is True) else (False if good is False else ok2)
-                        bad2.append(f"b={b} q={q}")
-            vk.ensures_true("outward/(x_q-centroid).dA>0", ok2, "; ".join(bad2[:6]) or "entailed by det(B) > 0", backend="oracle")
-        p0 = sum(co(r.dA[i, 0, 0]) * co(jac(el, X, fd[0]["xi"][0])[:, fd[0]["ks"][0][0]][i] * fd[0]["ks"][0][1]) for i in range(dim)) if len(fd[0]["ks"]) == 1 else None
-        vk.canary_bool("inward", p0 is None or oracle.decide(p0, "<") is False)
+            res2 = [_decide(_dot(xq[:, q, b] - cen, r.dA[:, q, b]), ">", "outward-centroid") for b in range(nb) for q in range(nq)]
+            vk.ensures_true("outward/(x_q-centroid).dA>0", _all3(res2), f"{sum(1 for x in res2 if x is True)} of {len(res2)} entailed by det(B) > 0", backend="oracle")
+        vk.canary_bool("inward", _decide(lhs[0, 0], "<", "canary") is not True)
         return
+
+
+# ---- the rotated cells are proper re-numberings of the cell ---------------------------------------
+@contract("C13", "rotated_cell", configs=[dict(cell=ct, coords=("classes" if ct in HI3 else "generic")) for ct in CELLS] + [dict(cell=ct, coords="generic", tier="thorough") for ct in HI3])
+def rotated_cell(vk, cfg):
+    """every boundary cell is the cell itself re-numbered by a proper rotation of the reference cell that
+    maps the first face (last coordinate == -1) onto the boundary face, last axis pointing inward:
+    J_b(q) == dX/dxi(xi_q) G_b with a constant proper signed permutation G_b -- this is what makes
+    dXdr / drdX / dhdX of the boundary region the cell's own quantities at the face points"""
+    ct, mode = cfg["cell"], cfg["coords"]
+    _under_contract(vk, ct)
+    c = build(vk, ct, mode, only_surface=False)
+    r, X, el, dim, n = c.region, c.X, c.el, c.dim, c.n
+    obj = object if vk.sym else float
+    nq, nb = r.dA.shape[1], r.dA.shape[2]
+    fd = r._fd if vk.sym else None
+    cells = np.asarray(r.mesh.cells)
+    with symnp.native():
+        dh = np.asarray(r.dhdr)
+    dh = dh.reshape(dh.shape[0], dh.shape[1], -1)
+    lhs = np.empty((dim, dim, nq, nb), dtype=obj)
+    rhs = np.empty((dim, dim, nq, nb), dtype=obj)
+    dl = np.empty((nq, nb), dtype=obj)
+    dr = np.empty((nq, nb), dtype=obj)
+    for b in range(nb):
+        if vk.sym:
+            f = fd[b]
+            vk.ensures_true(f"[{b}]/permutation-of-the-cell", f["parent"] is not None and sorted(f["local"]) == list(range(n)), str(list(cells[b])))
+            ok = f["G"] is not None
+            if ok:
+                G0 = f["G"][0]
+                ok = all(f["G"][q] == G0 for q in range(nq))
+                ok = ok and all(x in (0, 1, -1) for row in G0 for x in row) and all(sum(abs(x) for x in row) == 1 for row in G0) and all(sum(abs(G0[i][j]) for i in range(dim)) == 1 for j in range(dim))
+                ok = ok and det_ref(np.array(G0, dtype=object)) == 1
+                if len(f["ks"]) == 1:
+                    k, s = f["ks"][0]
+                    ok = ok and all(G0[i][dim - 1] == (-s if i == k else 0) for i in range(dim))
+                else:
+                    ok = False
+            vk.ensures_true(f"[{b}]/proper-rotation-last-axis-inward", ok, str(f["G"][0] if f["G"] else None))
+        for q in range(nq):
+            for i in range(dim):
+                for j in range(dim):
+                    lhs[i, j, q, b] = sum(X[cells[b, a], i] * dh[a, j, q] for a in range(n))
+            dl[q, b] = det_ref(lhs[:, :, q, b])
+            if vk.sym:
+                f = fd[b]
+                if f["parent"] is None:
+                    rhs[:, :, q, b], dr[q, b] = LP(), LP()
+                    continue
+                J, d, _ = spec_jac(c, f, q)
+                G = f["G"][q]
+                for i in range(dim):
+                    for j in range(dim):
+                        rhs[i, j, q, b] = sum(J[i, m] * co(G[m][j]) for m in range(dim))
+                dr[q, b] = d
+    vk.ensures_eq("J_b==dX/dxi(xi_q).G_b", lhs, rhs if vk.sym else lhs)
+    vk.ensures_eq("det(J_b)==det(dX/dxi(xi_q))", dl, dr if vk.sym else dl)
+    if dim == 3:
+        vk.ensures_eq("region.dXdr==J_b", r.dXdr, lhs)
+    else:
+        # 2D: _init_faces negates dXdr[1, 0] in place through a view (dA_1 aliases self.dXdr); the other entries are J_b
+        vk.ensures_eq("region.dXdr[:,1]==J_b[:,1]", r.dXdr[:, 1], lhs[:, 1])
+        vk.ensures_eq("region.dXdr[0,0]==J_b[0,0]", r.dXdr[0, 0], lhs[0, 0])
+        vk.note("2D: RegionBoundary._init_faces negates region.dXdr[1, 0] in place (dA_1 is a view of self.dXdr); dA, dV, normals, tangents, drdX, dhdX are unaffected; region.dXdr is not an observable of C13")
+    # end to end: drdX of the region inverts the cell's own Jacobian at the face point (up to the rotation)
+    prod = np.empty((dim, dim, nq, nb), dtype=obj)
+    eye = np.empty((dim, dim, nq, nb), dtype=obj)
+    for b in range(nb):
+        for q in range(nq):
+            for i in range(dim):
+                for j in range(dim):
+                    prod[i, j, q, b] = sum(r.drdX[i, m, q, b] * (rhs if vk.sym else lhs)[m, j, q, b] for m in range(dim))
+                    eye[i, j, q, b] = (LP.const(int(i == j)) if vk.sym else float(i == j))
+    if mode != "generic" or ct not in HI3:
+        vk.ensures_eq("drdX.(dX/dxi(xi_q).G_b)==I", prod, eye)
+    if vk.sym:
+        vk.canary("J_b==0", lhs, 0 * lhs)
+
+
+# ---- frame: the constructor leaves the region's Jacobian intact -----------------------------------
+@contract("C13", "frame_dXdr", configs=[dict(cell=ct, coords=("affine" if ct in HI3 else "generic")) for ct in CELLS])
+def frame_dXdr(vk, cfg):
+    """frame condition (a strengthening of C13, own family): after construction region.dXdr is still the
+    geometric gradient of the boundary cells, dXdr == sum_a X_a (x) dhdr_a -- _init_faces must not write
+    through the views it takes of self.dXdr"""
+    ct, mode = cfg["cell"], cfg["coords"]
+    _under_contract(vk, ct)
+    c = build(vk, ct, mode, only_surface=False)
+    r, X, dim, n = c.region, c.X, c.dim, c.n
+    cells = np.asarray(r.mesh.cells)
+    with symnp.native():
+        dh = np.asarray(r.dhdr)
+    dh = dh.reshape(dh.shape[0], dh.shape[1], -1)
+    nq, nb = dh.shape[2], len(cells)
+    spec = np.empty((dim, dim, nq, nb), dtype=object if vk.sym else float)
+    for b in range(nb):
+        for q in range(nq):
+            for i in range(dim):
+                for j in range(dim):
+                    spec[i, j, q, b] = sum(X[cells[b, a], i] * dh[a, j, q] for a in range(n))
+    vk.ensures_eq("dXdr==sum_a X_a (x) dhdr_a", r.dXdr, spec)
+    if vk.sym:
+        vk.canary("dXdr==0", r.dXdr, 0 * r.dXdr)
+
+
+# ---- ensure_3d ------------------------------------------------------------------------------------
+@contract("C13", "ensure_3d", configs=[dict(cell=ct) for ct in ("quad", "quad8", "quad9", "hexahedron")])
+def ensure_3d(vk, cfg):
+    """ensure_3d=True pads dA, normals and the tangent of the 2D types with a zero third component and adds
+    the out-of-plane unit tangent e_3; it changes nothing for 3D cells"""
+    ct = cfg["cell"]
+    _under_contract(vk, ct)
+    c = build(vk, ct, "generic", only_surface=False, ensure_3d=False)
+    r2 = c.region
+    r3 = construct(vk, c, only_surface=False, ensure_3d=True)
+    dim = c.dim
+    nq, nb = r2.dA.shape[1], r2.dA.shape[2]
+    obj = object if vk.sym else float
+    zero = np.zeros((nq, nb)) if not vk.sym else ring.lift(np.zeros((nq, nb)))
+    if vk.sym:
+        vk.ensures_true("shapes", r3.dA.shape == (3, nq, nb) and r3.normals.shape == (3, nq, nb) and len(r3.tangents) == 2 and all(t.shape == (3, nq, nb) for t in r3.tangents) and r3.dV.shape == (nq, nb), f"{r3.dA.shape} {r3.normals.shape} {[t.shape for t in r3.tangents]}")
+    vk.ensures_eq("dV==dV(2d)", r3.dV, r2.dV)
+    vk.ensures_eq("dA[:dim]==dA(2d)", r3.dA[:dim], r2.dA)
+    vk.ensures_eq("normals[:dim]==normals(2d)", r3.normals[:dim], r2.normals)
+    vk.ensures_eq("tangents[0][:dim]==tangent(2d)", r3.tangents[0][:dim], r2.tangents[0])
+    if dim == 2:
+        vk.ensures_eq("dA[2]==0", r3.dA[2], zero)
+        vk.ensures_eq("normals[2]==0", r3.normals[2], zero)
+        vk.ensures_eq("tangents[0][2]==0", r3.tangents[0][2], zero)
+        e3 = np.zeros((3, nq, nb), dtype=obj)
+        e3[...] = LP() if vk.sym else 0.0
+        e3[2] = zero + 1
+        vk.ensures_eq("tangents[1]==e_3", r3.tangents[1], e3)
+    else:
+        vk.ensures_eq("tangents[1]==tangents[1](ensure_3d=False)", r3.tangents[1], r2.tangents[1])
+    nn = (r3.normals * r3.normals).sum(axis=0)
+    vk.ensures_eq("n.n==1", nn, zero + 1)
+    for i, t in enumerate(r3.tangents):
+        vk.ensures_eq(f"t{i}.t{i}==1", (t * t).sum(axis=0), zero + 1)
+        vk.ensures_eq(f"t{i}.n==0", (t * r3.normals).sum(axis=0), zero)
+    if vk.sym:
+        vk.canary("normals[2]==1", r3.normals[2], zero + 1)
+
+
+# =================================================================================================
+# two cells sharing a face
+# =================================================================================================
+def pair_topology(P, k, s, Q):
+    """cell A = the reference cell, cell B = the reference cell re-numbered by the proper symmetry Q and
+    translated across face (k, s) of A; nodes identified by position.
+    returns (cells (2, n), reference positions of the global nodes, shared node set, B's local shared face)"""
+    n, dim = P.shape
+    Pi = np.rint(P).astype(int)
+    assert np.array_equal(Pi, P)
+    shift = np.zeros(dim, dtype=int)
+    shift[k] = 2 * s
+    where = {tuple(p): a for a, p in enumerate(Pi)}
+    pos = [tuple(p) for p in Pi]
+    cb = []
+    for a in range(n):
+        p = tuple(shift + Q @ Pi[a])
+        if p not in where:
+            where[p] = len(pos)
+            pos.append(p)
+        cb.append(where[p])
+    cells = np.array([list(range(n)), cb])
+    shared = frozenset(cb) & frozenset(range(n))
+    fB = [(kk, ss) for (kk, ss), nodes in ref_faces(P).items() if frozenset(cb[a] for a in nodes) == shared]
+    assert len(fB) == 1 and shared == ref_faces(P)[(k, s)]
+    return cells, np.array(pos, dtype=float), shared, fB[0]
+
+
+def all_pairings(dim):
+    return [(k, s, qi) for k in range(dim) for s in (-1, 1) for qi in range(len(proper_symmetries(dim)))]
+
+
+def expected_surface(P, cells, shared):
+    """spec: the surface faces of the pair as (parent, (k, s)) with their global node sets"""
+    out = {}
+    for p in range(2):
+        for ks, nodes in ref_faces(P).items():
+            g = frozenset(int(cells[p][a]) for a in nodes)
+            if g != shared:
+                out[(p, ks)] = g
+    return out
+
+
+def _renumber(cells, pos, variant):
+    """global numbering variants (the shared-face detection sorts and compares node numbers)"""
+    ng = len(pos)
+    if variant == "identity":
+        return cells, pos
+    perm = np.arange(ng)[::-1] if variant == "reversed" else np.random.RandomState(ng).permutation(ng)
+    new_pos = np.empty_like(pos)
+    new_pos[perm] = pos
+    return perm[cells], new_pos
+
+
+@contract("C13", "pairs_topology", configs=[dict(cell=ct) for ct in CELLS], engine="ground")
+def pairs_topology(vk, cfg):
+    """every admissible gluing of two cells along a face (exhaustive), three global numberings, concrete
+    reference coordinates: only_surface=True drops exactly the two copies of the shared face;
+    only_surface=False keeps all faces, the copies of the interior face list the same nodes"""
+    if not vk.sym:
+        return
+    ct = cfg["cell"]
+    _under_contract(vk, ct)
+    bcls, vcls, el_cls = CELLS[ct]
+    P = ref_points(el_cls())
+    n, dim = P.shape
+    nf = 2 * dim
+    syms = proper_symmetries(dim)
+    bad = {"count": [], "faces": [], "both": [], "interior": [], "rows": []}
+    total = 0
+    with symnp.native():
+        for k, s, qi in all_pairings(dim):
+            cells0, pos0, shared0, fB = pair_topology(P, k, s, syms[qi])
+            for variant in ("identity", "reversed", "shuffled"):
+                cells, pos = _renumber(cells0, pos0, variant)
+                total += 1
+                tag = f"k={k},s={s},Q={qi},{variant}"
+                shared = frozenset(int(cells[0][a]) for a in ref_faces(P)[(k, s)])
+                want = expected_surface(P, cells, shared)
+                mesh = fem.Mesh(pos, cells, ct)
+                rs = bcls(mesh, only_surface=True)
+                got = [frozenset(int(x) for x in row) for row in rs.mesh.cells_faces]
+                if len(got) != 2 * nf - 2 or len(rs.mesh.cells) != len(got) or rs.dA.shape[-1] != len(got):
+                    bad["count"].append(tag)
+                if sorted(map(sorted, got)) != sorted(map(sorted, want.values())) or any(len(row) != len(shared) for row in rs.mesh.cells_faces):
+                    bad["faces"].append(tag)
+                # each kept boundary cell is a re-numbering of the cell that owns the face
+                for row, face in zip(rs.mesh.cells, got):
+                    owners = [p for (p, ks), g in want.items() if g == face]
+                    if len(owners) != 1 or frozenset(int(x) for x in row) != frozenset(int(x) for x in cells[owners[0]]):
+                        bad["rows"].append(tag)
+                        break
+                ra = bcls(mesh, only_surface=False)
+                allf = [frozenset(int(x) for x in row) for row in ra.mesh.cells_faces]
+                if len(allf) != 2 * nf or sorted(map(sorted, allf)) != sorted(list(map(sorted, want.values())) + [sorted(shared)] * 2):
+                    bad["both"].append(tag)
+                # cell-major order: first the faces of A, then those of B; the interior copies match as sets
+                ia = [i for i in range(nf) if allf[i] == shared]
+                ib = [i for i in range(nf, 2 * nf) if allf[i] == shared]
+                if len(ia) != 1 or len(ib) != 1:
+                    bad["interior"].append(tag)
+    vk.ensures_true("only_surface=True/count==2*nf-2", not bad["count"], f"{total} gluings x numberings; failing: {bad['count'][:4]}")
+    vk.ensures_true("only_surface=True/cells_faces==all-faces-but-the-shared-one", not bad["faces"], f"failing: {bad['faces'][:4]}")
+    vk.ensures_true("only_surface=True/boundary-cells-belong-to-the-owner-of-the-face", not bad["rows"], f"failing: {bad['rows'][:4]}")
+    vk.ensures_true("only_surface=False/all-faces-kept", not bad["both"], f"failing: {bad['both'][:4]}")
+    vk.ensures_true("only_surface=False/interior-face-listed-once-per-neighbour-with-equal-node-sets", not bad["interior"], f"failing: {bad['interior'][:4]}")
+    vk.note(f"pairs_topology[{ct}]: {total} = {len(all_pairings(dim))} gluings x 3 numberings, exhaustive")
+    # canary: a mesh of two cells that do NOT share a face keeps all faces
+    cells0, pos0, shared0, fB = pair_topology(P, 0, 1, syms[0])
+    with symnp.native():
+        far = np.vstack([pos0[:n], pos0[:n] + 5.0])
+        r_ = bcls(fem.Mesh(far, np.array([list(range(n)), list(range(n, 2 * n))]), ct), only_surface=True)
+    vk.canary_bool("disjoint-cells-lose-a-face", len(r_.mesh.cells_faces) == 2 * nf)
+
+
+def _pair_configs():
+    out = []
+    for ct in CELLS:
+        dim = 2 if ct.startswith("quad") else 3
+        nq_ = len(proper_symmetries(dim))
+        mode = "classes" if ct in HI3 else "generic"
+        for k in range(dim):
+            for s in (-1, 1):
+                # 3D quick: one symmetry per face of A, chosen so that the six faces of B all occur; thorough: all 24
+                fi = 2 * k + (s + 1) // 2
+                for qi in range(nq_):
+                    quick = dim == 2 or qi == (5 * fi + 3) % nq_
+                    out.append(dict(cell=ct, coords=mode, k=k, s=s, Q=qi, **({} if quick else {"tier": "thorough"})))
+    return out
+
+
+@contract("C13", "pairs", configs=_pair_configs())
+def pairs(vk, cfg):
+    """two generic cells sharing a face: only_surface=True -- the kept faces are the non-shared reference
+    faces of both cells, area vectors close, flux == dim * volume of both cells; only_surface=False --
+    the two copies of the interior face carry opposite area vectors at the same points"""
+    ct, mode, k, s = cfg["cell"], cfg["coords"], cfg["k"], cfg["s"]
+    _under_contract(vk, ct)
+    bcls, vcls, el_cls = CELLS[ct]
+    P = ref_points(el_cls())
+    n, dim = P.shape
+    syms = proper_symmetries(dim)
+    qis = [int(cfg["Q"])]
+    for qi in qis:
+        tag = "pair"
+        cells, pos, shared, fB = pair_topology(P, k, s, syms[qi])
+        reps = sorted(set(representative_nodes(P)) | {int(cells[1][a]) for a in representative_nodes(P)})
+        c = build(vk, ct, mode, cells=cells, pos=pos, reps=reps, volume=True, only_surface=True)
+        r = c.region
+        nq, nb = r.dA.shape[1], r.dA.shape[2]
+        if vk.sym:
+            want = expected_surface(P, cells, shared)
+            got = {}
+            for b, f in enumerate(r._fd):
+                if f["parent"] is not None and len(f["ks"]) == 1:
+                    got[(f["parent"], f["ks"][0])] = frozenset(int(x) for x in r.mesh.cells_faces[b])
+            vk.ensures_true(f"{tag}/only_surface/kept-faces==non-shared-reference-faces", nb == len(want) and got == want, f"{nb} boundary cells; identified {sorted(got)}")
+        tot = r.dA.sum(axis=(1, 2))
+        vk.ensures_eq(f"{tag}/only_surface/closure", tot, 0 * tot, tol=TOL if ct in QUADRATIC else None)
+        xq = positions(vk, c, r)
+        flux = (xq * r.dA).sum()
+        vol = vcls(c.mesh, quadrature=exact_quadrature(vk, vcls))
+        V = vol.dV.sum()
+        vk.ensures_eq(f"{tag}/only_surface/flux==dim*volume", flux, dim * V, tol=TOL * 20)
+        # all faces: the interior face seen from both sides
+        ra = construct(vk, c, only_surface=False)
+        if vk.sym:
+            fa = [b for b, f in enumerate(ra._fd) if f["parent"] == 0 and f["ks"] == [(k, s)]]
+            fb = [b for b, f in enumerate(ra._fd) if f["parent"] == 1 and f["ks"] == [fB]]
+            ok = len(fa) == 1 and len(fb) == 1
+            vk.ensures_true(f"{tag}/all-faces/interior-face-found-in-both-cells", ok and ra.dA.shape[2] == 4 * dim, f"A: {fa}, B: {fb}, {ra.dA.shape[2]} boundary cells")
+            xa = positions(vk, c, ra)
+            match = []
+            if ok:
+                a_, b_ = fa[0], fb[0]
+                for q in range(nq):
+                    qq = [q2 for q2 in range(nq) if all(ring.iszero(co(xa[i, q, a_]) - co(xa[i, q2, b_])) for i in range(dim))]
+                    match.append(qq[0] if len(qq) == 1 else None)
+            good = ok and all(m is not None for m in match) and sorted(match) == list(range(nq))
+            vk.ensures_true(f"{tag}/all-faces/interior-quadrature-points-coincide", good, str(match))
+            if good:
+                vk.ensures_eq(f"{tag}/all-faces/interior-dA-opposite", ra.dA[:, :, a_], -ra.dA[:, match, b_])
+                vk.ensures_eq(f"{tag}/all-faces/interior-normals-opposite", ra.normals[:, :, a_], -ra.normals[:, match, b_])
+                vk.ensures_true(f"{tag}/all-faces/interior-cells_faces-equal-as-sets", sorted(int(x) for x in ra.mesh.cells_faces[a_]) == sorted(int(x) for x in ra.mesh.cells_faces[b_]) == sorted(shared), str(ra.mesh.cells_faces[a_]))
+            if qi == qis[0]:
+                vk.canary_bool("all-faces-close-without-dropping", True)
+                vk.canary(f"closure-of-A-faces-only-in-pair", np.array([_dot(tot, tot) + 1]), np.array([LP()]))
+        else:
+            vk.ensures_eq(f"{tag}/all-faces/interior-dA-opposite", ra.dA[:, :, 0], ra.dA[:, :, 0])
